@@ -299,18 +299,29 @@ def scaling(ctx, cap):
             if best < 0.003:
                 break                        # below the noise floor: not used for the exponent anyway
         return best
+    def measure(f, fz):
+        n, pts = 2048, []
+        while n <= 2 ** 18:
+            t = cost(f(n), fz)
+            pts.append((n, t))
+            ctx.evaluations += 1
+            if t > cap:
+                break
+            n *= 2
+        big = [p for p in pts if p[1] >= 0.004][-3:]       # the last (up to) two doublings above the noise floor
+        expo = (math.log(big[-1][1] / big[0][1]) / math.log(big[-1][0] / big[0][0])) if len(big) >= 2 else 1.0
+        return pts, expo
     for name, f in SCALING.items():
         for fz in ((False, True) if name in FUZZY_SCALING else (False,)):
-            n, pts = 2048, []
-            while n <= 2 ** 18:
-                t = cost(f(n), fz)
-                pts.append((n, t))
-                ctx.evaluations += 1
-                if t > cap:
-                    break
-                n *= 2
-            big = [p for p in pts if p[1] >= 0.004][-3:]       # the last (up to) two doublings above the noise floor
-            expo = (math.log(big[-1][1] / big[0][1]) / math.log(big[-1][0] / big[0][0])) if len(big) >= 2 else 1.0
+            pts, expo = measure(f, fz)
+            if (expo > 1.7 and name not in SUPERLINEAR_KNOWN) or (name in SUPERLINEAR_KNOWN and expo >= 2.4):
+                # a timing measurement: before reporting a family that is not known to be super-linear, measure it twice
+                # more and keep the smallest growth seen (a scheduling or GC hiccup inflates one run, never all three)
+                for _ in range(2):
+                    pts2, expo2 = measure(f, fz)
+                    ctx.count("scaling_remeasured")
+                    if expo2 < expo:
+                        pts, expo = pts2, expo2
             key = "%s%s" % (name, "+fuzzy" if fz else "")
             ctx.hist["scaling_exponent_" + key] = round(expo, 2)
             ctx.hist["scaling_longest_" + key] = "%d chars: %.3f s" % (len(f(pts[-1][0])), pts[-1][1])
@@ -478,7 +489,7 @@ def oracle(ctx):
 
 
 KNOWN = {"D-C14-superlinear-time": lambda v: v["case"].get("known_class") == "D-C14-superlinear-time"
-         and v["case"].get("family") in SUPERLINEAR_KNOWN and 1.7 < v["case"].get("exponent", 0) < 2.5}
+         and v["case"].get("family") in SUPERLINEAR_KNOWN and v["case"].get("exponent", 0) < 2.5}
 
 
 def replay(ctx, payload):
